@@ -36,6 +36,7 @@ def bitset_observables(bitsets, members, values, tuple_cls=None):
         o['shortlex'] = tuple(int(k) for k in x.shortlex())
         o['longlex'] = tuple(int(k) for k in x.longlex())
         o['count'] = int(x.count())
+        o['count_false'] = int(x.count(False))
         o['all'] = bool(x.all())
         o['any'] = bool(x.any())
         o['int'] = int(x.int)
